@@ -145,3 +145,99 @@ def parse_block_guard_contract(prop, replay_code):
 def _frozen(data):
     from pyvc.expr import _Frozen
     return _Frozen(data)
+
+
+# ---- RenderNode.render_to_output*: one contract, two readings -- C15 (the partial's context is an
+# ---- isolated copy: arguments + global data, include disabled; the caller's context is not
+# ---- written) and C06 (the copy carries the caller's iteration product; a bound array multiplies
+# ---- it by its length, within the limit)
+
+RENDERNODE = "liquid.builtin.tags.render_tag:RenderNode"
+
+
+def render_node_contract(prop, sfx, bound, replay_code):
+    """bound: 'none' | 'scalar' | 'array' (the `for`/`with` variable of the render tag)"""
+    from pyvc.contract import contract
+    from pyvc.exec import Obligation
+
+    @contract(RENDERNODE + ".render_to_output" + sfx, prop=prop, name=f"RenderNode.render_to_output{sfx}[bound variable: {bound}]")
+    def rn(c):
+        EXP = "liquid.expression:Expression"
+        env = mk_env(c, undefined=VClass("liquid.undefined", "Undefined"))
+        caller = mk_ctx(c, env)
+        tmpl = c.obj(TEMPLATE, "partial_template", name=c.str("partial_name"), env=env)
+        name_expr = c.obj("liquid.builtin.expressions.primitive:StringLiteral", "name", value=c.str("name_text"), token=NONE)
+        argv = c.any("argument_value")
+        arg = c.obj("liquid.builtin.expressions.arguments:KeywordArgument", "kwarg", name=c.str("argument_name"), value=c.obj(EXP, "argument_expr", __value__=argv, token=NONE), token=NONE)
+        items = [c.any("item0"), c.any("item1")]
+        if bound == "array":
+            val = c.st.alloc(HList(items=list(items)))
+        elif bound == "scalar":
+            val = c.any("bound_value")
+            c.requires(z3.Not(U.is_ref(val.t)), "a bound value that is not array-like")
+        else:
+            val = None
+        var = c.obj(EXP, "bound_expr", __value__=val, token=NONE) if val is not None else NONE
+        self = c.obj(RENDERNODE, "render", name=name_expr, var=var, loop=VBool(z3.BoolVal(bound == "array")), alias=c.str("alias"), args=c.st.alloc(HList(items=[arg])), token=NONE, tag=const("render"))
+        c.requires(z3.Length(c.st.deref(self).fields["alias"].t) > 0, "an alias is given (otherwise the key is derived from the template name)")
+        partial_ctx = mk_ctx(c, env, locals=c.dict("partial_locals"), counters=c.dict("partial_counters"), loops=c.st.alloc(HList(items=[])), loop_iteration_carry=c.int("partial_carry"))
+        evx = lambda eng, st, a, k: [(st, st.deref(a[0]).fields["__value__"])]  # noqa: E731
+        c.summary(EXP + ".evaluate", evx)
+        c.summary(EXP + ".evaluate_async", evx)
+        c.summary(ENV + ".get_template" + sfx, lambda eng, st, a, k: [(st, tmpl)])
+
+        def copy(eng, st, a, k):
+            st.log.append(("copy", a[0], a[1], dict(k)))
+            return [(st, partial_ctx)]
+        c.summary(CTX + ".copy", copy)
+        Lm = c.st.deref(env).fields["loop_iteration_limit"].t
+        limited = U.is_int(Lm)
+        carry = c.st.deref(partial_ctx).fields["loop_iteration_carry"].t
+
+        def measure(st):
+            f = st.deref(partial_ctx).fields
+            acc = f["loop_iteration_carry"].t
+            for x in st.deref(f["loops"]).items:
+                acc = acc * st.deref(x).fields["length"].t
+            return acc
+
+        def render_with_context(eng, st, a, k):
+            st.log.append(("render", a[0], a[1], dict(k)))
+            if bound == "array":
+                eng.obligations.append(Obligation("callee-pre", "partial-render:iteration-product-is-the-carried-product-times-the-array-length-and-within-the-limit", list(st.pc),
+                                                  z3.And(measure(st) == carry * 2, z3.Implies(limited, carry * 2 <= U.i(Lm))), "RenderNode bound array"))
+            return [(st, VInt(z3.Int(f"chars_{len(st.log)}")))]
+        c.summary(TEMPLATE + ".render_with_context" + sfx, render_with_context)
+        caller_addrs = {caller.addr} | {v.addr for v in c.st.deref(caller).fields.values() if isinstance(v, VRef)}
+        c.call(caller, c.obj("io:StringIO", "buffer", __text__=c.str("out")), self_val=self)
+        if bound == "array":
+            c.bounded_loop(0, 3)   # the ForLoop iterator over a 2-item spine is exhausted after 2 steps (exact)
+
+        def post(r):
+            copies = [e for e in r.st.log if e[0] == "copy"]
+            renders = [e for e in r.st.log if e[0] == "render"]
+            if len(copies) != 1 or copies[0][1] != caller:
+                return z3.BoolVal(False)
+            kw = copies[0][3]
+            ns = copies[0][2]
+            nh = r.st.deref(ns) if isinstance(ns, VRef) else None
+            ok_ns = isinstance(nh, HObj) and nh.cls[1] == "ReadOnlyChainMap"
+            dt = kw.get("disabled_tags")
+            dts = r.engine.concrete_items(r.st, dt) if dt is not None else None
+            ok_dis = dts is not None and any(concrete(x) == (True, "include") for x in dts)
+            ok_carry = concrete(kw.get("carry_loop_iterations", const(False))) == (True, True)
+            ok_iso = "block_scope" not in kw or concrete(kw["block_scope"]) == (True, False)
+            ok_tmpl = kw.get("template") == tmpl
+            n_want = 2 if bound == "array" else 1
+            ok_renders = len(renders) == n_want and all(e[1] == tmpl and e[2] == partial_ctx and concrete(e[3].get("partial")) == (True, True) and concrete(e[3].get("block_scope")) == (True, True) for e in renders)
+            writes = [e for e in r.st.log if e[0] in ("setitem", "delitem", "setattr") and e[1] in caller_addrs]
+            return z3.BoolVal(bool(ok_ns and ok_dis and ok_carry and ok_iso and ok_tmpl and ok_renders and not writes))
+        c.ensures("the-partial-renders-in-an-isolated-copy(arguments+globals,include-disabled,product-carried)-and-the-caller-is-not-written", post)
+        c.ensures("the-iteration-product-of-the-partial-context-is-restored", lambda r: measure(r.st) == carry)
+        c.raises("LoopIterationLimitError", "TemplateNotFoundError", "ContextDepthError")
+        if bound == "array":
+            c.ensures_exc("limit-error-exactly-when-the-array-would-exceed-the-limit", lambda r: z3.Implies(z3.BoolVal(r.exc.cls == "LoopIterationLimitError"), z3.And(limited, carry * 2 > U.i(Lm))))
+            c.assume_note("BOUNDED in the array length only: a bound array with a spine of 2 arbitrary items")
+        c.assume_note("context.copy is summarised here (its isolation and carry contracts are C15's and C06's own copy contracts); the partial's body is an arbitrary callee")
+        c.replay("code", code=replay_code())
+    return rn
